@@ -18,6 +18,10 @@ def oracle(req, decide, seq, obs, m=None, norm=lambda x: x):
     check_listing(req, ref, to_l, "content", m)
 
 
+# the same alphabet with a PRAGMA that carries a second argument after its name (the extern map keys on the first argument only)
+TPLS2 = [Tpl("pragma", 'PRAGMA {pn} {e} extra "{sig}"', pn=("str", ["EXTERN", "OTHER"]), e=("str", ["fa", "fb"]), sig=("str", ["(x : INTEGER)", "(y : REAL)"])) if t.name == "pragma" else t
+         for t in TPLS]
+
 SCRIPT = [["from", "p", None], ["to_instructions", "p"], ["into_instructions", "p"], ["rebuild", "r", "p"], ["eq", "p", "r"], ["to_instructions", "r"]]
 
 
@@ -40,6 +44,7 @@ class C09(Check):
     def setup(self, world, runner, tier):
         self.td = world.td
         parse_templates(runner, world.td, TPLS)
+        parse_templates(runner, world.td, [t for t in TPLS2 if t.name == "pragma"])
 
     def script(self, n):
         s = [list(x) for x in SCRIPT]
@@ -48,20 +53,23 @@ class C09(Check):
 
     def path(self, m):
         n = m.choose([(k, None) for k in range(1, self.N[m.tier] + 1)])
-        ins = sym_instructions(m, n)
+        two = m.choose([(False, None), (True, None)])
+        m.ctx = {"pragma2": two}
+        ins = sym_instructions(m, n, "i", TPLS2 if two else TPLS)
         obs = run_script(m, self.script(n), ins)
         seq = [to_tree(m, x) for x in ins]
         oracle(lambda k, d, g: m.require(k, d, g), m.branch_bool, seq, obs, m)
         if m.want_sample() and m._check() == z3.sat:
             zm = m.solver.model()
             mdl = m.model_dict(zm)
-            return {"n": n, "texts": texts_from_model(self.td, n, mdl), "obs": json_tree(eval_tree(obs, zm, None))}
+            return {"n": n, "texts": texts_from_model(self.td, n, mdl, "i", TPLS2 if two else TPLS), "obs": json_tree(eval_tree(obs, zm, None))}
         return None
 
     def case(self, kind, detail, model):
         n = 0
         while f"i{n}_kind" in model: n += 1
-        return {"n": n, "texts": texts_from_model(self.td, n, model), "kind": kind}
+        two = bool(model.get("_ctx", {}).get("pragma2"))
+        return {"n": n, "texts": texts_from_model(self.td, n, model, "i", TPLS2 if two else TPLS), "kind": kind}
 
     def native(self, runner, case):
         obs, raw = native_script(runner, self.script(case["n"]), case["texts"])
